@@ -323,6 +323,28 @@ def _links_parse(c, ctx):
                 src.link = link
             else:
                 src.link2 = link
+    # a sub-parser created over the window INPUT[lo:hi]: the field that hi - lo is affine in governs everything that
+    # sub-parser reads (VectorString: uint32 length, then a text parser over exactly that many bytes)
+    windows = {}
+    for e in c.flat:
+        t = getattr(e.op, 'target', None) if e.op is not None else None
+        rel = getattr(t, 'rel', None)
+        if rel and rel[0] == 'window' and e.kind not in ('alt', 'tryalt'):
+            windows.setdefault(id(t), (t, []))[1].append(e)
+    for t, els in windows.values():
+        _, lo, hi = t.rel
+        try:
+            af = affine(fold(Sym('sub', hi, lo)), atom)
+        except Exception:      # pylint: disable=broad-except
+            af = None
+        if af is None or len(af[1]) != 1:
+            continue
+        (k, coeff), = af[1].items()
+        src = by_op.get((k[1], k[2]))
+        if coeff != 1 or src is None or getattr(src, 'link', None) is not None:
+            continue
+        top = _top_level(els)
+        src.link = ('bytes', -af[0], list(top))
     return c
 
 
